@@ -95,9 +95,8 @@ class Sched(object):
                     raise
                 except BaseException as ex:      # the thread's function raised: remember why; the thread
                     ts.exc = ex                  # still ends through its "end" operation like any other
-                finally:
-                    if self.line_file:
-                        sys.settrace(None)
+                # (no sys.settrace(None) here: on CPython 3.12 switching tracing off in one thread can make the
+                #  other traced threads lose line events for a while; the thread is about to end anyway)
                 self.announce("end", ts)
             except SchedAbort:
                 pass
